@@ -5,7 +5,7 @@ from ..scn import Pat, seg, term, stub, tup, Rng
 class Check(ParCheck):
     prop = 'C12'
     theorems = ['slotTaken_applyAction', 'C12_single_use_linear', 'C12_at_most_one_delivery', 'C12_multi_use_intact',
-                'C12_typestate_value_level']
+                'C12_typestate_value_level', 'C12_composite_single_use']
 
     def rule(self):
         return ("scenarios: a single-use response (some_call/next_call .returns(v) unquantified or .once(), also as the first "
@@ -38,6 +38,12 @@ class Check(ParCheck):
                 nm = f"{name}_{'s' if shared else 'c'}"
                 out.append((nm, par_scenario(nm, 'strict', tree, threads, shared)))
         return out
+
+    def extra(self, rep, tier, seed):
+        # owned leaves inside Option / Result / tuple / Vec / Poll composites: the compiled cases of C17's harness,
+        # single-use and repeatable paths, compared with the Output model (theorem C17_once, imported by Props/C12)
+        from .c17 import Check as C17
+        C17().explore(rep, only_paths=None, merge=True, prop=self.prop)
 
     def judge(self, name, r, seqs):
         j = super().judge(name, r, seqs)
